@@ -149,5 +149,3 @@ func devCmd(args []string) {
 	fmt.Println(strings.Repeat("-", 20), d.Stats.BySolver, d.Stats.MillisBy)
 }
 
-func checkCmd(args []string) int  { fmt.Println("not yet"); return 2 }
-func replayCmd(args []string) int { fmt.Println("not yet"); return 2 }
